@@ -219,7 +219,7 @@ func (gw *inclusiveGateway) NextAction(ctx context.Context, flow Flow) chan IAct
 		go gw.run(ctx, sender)
 	})
 
-	response := make(chan IAction)
+	response := make(chan IAction, 1)
 	gw.mch <- nextActionMessage{response: response, flow: flow}
 	return response
 }
